@@ -88,7 +88,8 @@ func (lib *KnowledgeLibrary) LoadKnowledgeBaseFromReader(reader io.Reader, overw
 
 	catalog := &Catalog{}
 	err := catalog.ReadCatalogFromReader(reader)
-	if err != nil && err != io.EOF {
+	if err != nil {
+		// io.EOF included: it means the stream ended where another field had to follow
 
 		return nil, err
 	}
